@@ -51,6 +51,7 @@ struct Outcome {
 	std::string           sig, msg, errout;
 	std::set<std::string> tags;
 	long                  counters[16] = {0};
+	std::map<std::string, long> soft_known;
 };
 
 struct Known {
@@ -181,8 +182,11 @@ class Runner {
 				}
 				return o;
 			};
-			if (get("status") == "known" && get("property") == spec.id)
+			if (get("status") == "known" && get("property") == spec.id) {
 				known.push_back({get("property"), get("sig"), get("what")});
+				if (vr_nknown_sigs < VR_MAXKNOWN)
+					snprintf(vr_known_sigs[vr_nknown_sigs++], sizeof(vr_known_sigs[0]), "%s", get("sig").c_str());
+			}
 		}
 	}
 
@@ -287,6 +291,8 @@ class Runner {
 		for (int i = 0; i < shared->ntags && i < VR_MAXTAGS; i++)
 			o.tags.insert(shared->tags[i]);
 		memcpy(o.counters, shared->counters, sizeof(o.counters));
+		for (int i = 0; i < shared->nknown && i < 8; i++)
+			o.soft_known[shared->known_sig[i]] += shared->known_cnt[i];
 		if (timed) {
 			o.kind = Outcome::TIMEOUT;
 			o.sig  = "watchdog";
@@ -413,6 +419,8 @@ class Runner {
 			tag_hist[t]++;
 		for (int i = 0; i < 16; i++)
 			counters[i] += o.counters[i];
+		for (auto &k : o.soft_known)
+			known_hits[k.first] += k.second;
 		bool nt = spec.nontrivial ? spec.nontrivial(o.tags) : true;
 		if (nt) {
 			nontrivial_total++;
@@ -512,6 +520,8 @@ pbt_main(int argc, char **argv, PropSpec spec)
 		std::string tg;
 		for (auto &t : o.tags)
 			tg += t + " ";
+		for (auto &k : o.soft_known)
+			printf("KNOWN-FINDING: property=%s sig=%s hits=%ld\n", spec.id.c_str(), k.first.c_str(), k.second);
 		if (o.kind == Outcome::PASS) {
 			printf("REPLAY property=%s held tags=[%s]\n", spec.id.c_str(), tg.c_str());
 			return 0;
